@@ -176,6 +176,23 @@ CLAIMS = {
           "counts. Known findings KF-C11-1..3 (native accumulators too narrow: decode width >= 25, delta width >= 29, encode "
           "width >= 25) cannot be repaired without Cython. The encoder's unpadded last group is accepted (lenient decode)."),
     technique="TLA+ spec: model-checked decoder cursor machine + TLC-computed test vectors replayed into the real codecs"),
+ "C10": dict(
+    level="model_checking",
+    text=("Three specifications: ThriftShapes.tla enumerates, from the IDL TLA+ module generated at check time out of "
+          "/repo's parquet.thrift, the lattice of value shapes of every metadata struct (presence patterns, list lengths "
+          "0/1/14/15/16/40, integer boundaries per declared width, string lengths 0/1/127/128/300); ThriftCompact.tla is a "
+          "pushdown acceptor of compact-protocol token traces that enables a token only if field id and wire type are the "
+          "ones the IDL declares; ThriftBuffer.tla models the output-buffer heuristic of to_bytes with the real constants "
+          "(NeverTruncated/NeverOutside hold with a growing buffer, are violated by the heuristic). Every shape goes "
+          "through two routes (parsed from independently encoded bytes; built through the constructor API), is re-"
+          "serialised, decoded by the independent decoder (lossless), round-tripped and pickled inside the library, and "
+          "the token trace of the re-serialised bytes is validated by TLC against the acceptor; the size points of the "
+          "buffer model are serialised by the real code in expendable processes."),
+    design_ref="DESIGN.md section 5 C10, section 10",
+    note=("Scope: structs reachable from FileMetaData and PageHeader that the library describes (encryption / bloom-filter "
+          "structs are unknown to it). Known findings KF-C10-1..4 are all in native code (cencoding.pyx) and cannot be "
+          "repaired here: field 14 dropped, i8/i16 widened to i64, buffer overrun for large binary fields, i8 read unsigned."),
+    technique="TLA+ specs: IDL-generated acceptor for token-trace validation, shape lattice export, integer buffer model"),
 }
 
 NOT_BUILT = "not built yet (construction order in DESIGN.md section 9)"
